@@ -96,6 +96,20 @@ theorem sticky (s : RState) (e : RErr) (h : s.readErr = some e) :
     readMessage s = .fail e { s with readLength := 0 } :=
   readMessage_sticky s e h
 
+/-- **cut_never_short.** For EVERY byte stream — in particular one cut at any offset inside a frame or
+between the fragments of a message — (1) reading ends in an error (a `Trace` always carries one; the
+session loop always terminates), and (2) from a state with no message in progress, `ReadMessage`
+delivers a message only when every byte announced by every frame of it has been read
+(`data.length = readLength`, the never-wrapped sum of the announced frame lengths) and the last
+frame was final, leaving the connection between messages again. A stream that ends inside a frame
+cannot supply the announced bytes, one that ends inside a fragmented message has no final frame:
+neither can end in a short message. -/
+theorem cut_never_short :
+    (∀ s : RState, ∃ t, session s = some t) ∧
+    (∀ (s s' : RState) (m : Msg), s.readFinal = true → readMessage s = .ok (m, none) s' →
+      (m.data.length : Int) = s'.readLength ∧ s'.readFinal = true ∧ s'.readRemaining = 0 ∧ s'.readErr = none) :=
+  ⟨session_total, fun s s' m hrf h => readMessage_complete s s' m hrf h⟩
+
 /-- **no_panic.** For all byte strings and all states the frame reader does not panic, `ReadMessage`
 does not panic, the loops' fuel is never exhausted, and every finite stream ends the session in an
 error (`Trace` always carries one) — so a cut stream can never end in a silently short message. -/
@@ -120,6 +134,13 @@ example : (session (init false false 10 f14bStream)).map (fun t => (t.msgs.lengt
 example : (session (init false false 10 f14bStream)).map (fun t => t.partialLen) = some 10 := by decide +kernel
 
 /-! ### non-vacuity -/
+
+-- cut_never_short on a concrete cut: a 3-byte text frame cut after 2 payload bytes, and a fragmented
+-- message cut between its fragments: an error, no message
+example : (session (init false false 0 [0x81, 3, 97, 98])).map (fun t => (t.msgs, t.err, t.partialLen)) =
+    some ([], .ueof, 2) := by decide +kernel
+example : (session (init false false 0 [0x01, 2, 97, 98])).map (fun t => (t.msgs, t.err, t.partialLen)) =
+    some ([], .ueof, 2) := by decide +kernel
 
 -- a fragmented text message with a ping in the middle, then a frame with a reserved opcode: well-formed
 -- frames; the spec receiver delivers "abc", answers the ping, fails with 1002 — and so does the model.
